@@ -279,3 +279,6 @@ HARNESSES.append(Harness(
     functions=["connections/rabbitmq/message_broker.py:RabbitMessageBroker.requeue", "connections/rabbitmq/consumer.py:_RabbitConsumer.on_new_message",
                "_processor.py:_Processor.report_to_broker"],
     covers=["rabbit-iteration"], stubs=["fake AMQP server; the first expiry is performed by the harness"]))
+
+from engine.harness import borrowed  # noqa: E402
+HARNESSES.append(borrowed("c02", "H02-worker", "H06-worker-outcomes"))   # every outcome of a recurring job's iteration ends in a report to the broker
